@@ -150,6 +150,48 @@ def run(chk):
           "when the node's cache says 'not a local' the scope stack is not searched at all: a variable of that name introduced later (eval(), use()) is ignored and the global / function is returned")
     r4.require(1, "obligation")
 
+    # ------------------------------------------------------------------ R4.5 the cached-local path
+    r5 = chk.rule("R4.5", "on the cached-local path a value is returned only from the exact remembered slot (after the name test) or from a complete re-resolution, and only after the scopes nearer than the remembered one were checked for the name",
+                  "a remembered position never wins over an inner variable of the same name, and a stale position falls back to the innermost-first search")
+    # the branch: the `if` whose condition tests the is_local bit of the cached value
+    branch = None
+    for n in walk(f["body"]):
+        if n.get("k") == "if" and "is_local" in expr_str(prog, f, n.get("cond") or {}) and derives_from_cache(prog, f, n["cond"], locs):
+            branch = n.get("then")
+    r5.anchor(branch is not None, "the cached-local branch of get_object")
+    rets = [n for n in walk(branch) if n.get("k") == "return" and n.get("e") is not None]
+    r5.anchor(rets, "returns in the cached-local branch")
+    searched = []
+    exact = 0
+    for n in rets:
+        e = strip_casts(n["e"])
+        txt = expr_str(prog, f, e)
+        if any(x.get("k") == "call" and x.get("name") == "get_object" for x in walk(e)):
+            continue          # complete re-resolution
+        if any(x.get("k") == "call" and x.get("name") in ("find", "find_if", "count", "lower_bound") for x in walk(e)) or \
+                any(x.get("k") == "ref" and x.get("rk") in ("local", "binding") and locs.get(x.get("vid")) is not None and locs[x["vid"]].get("init") is not None and
+                    any(y.get("k") == "call" and y.get("name") in ("find", "find_if", "lower_bound") for y in walk(locs[x["vid"]]["init"])) for x in walk(e)):
+            searched.append(n)
+        elif any(x.get("k") == "call" and x.get("name") in ("at_index", "operator[]") for x in walk(e)) or "begin" in txt:
+            exact += 1
+    for n in searched:
+        r5.ob("get_object/cached-local path returns only the exact remembered slot or a complete re-resolution", False, "%s:%d" % (f["file"], n["l"]), f["q"],
+              "returns %s: a search of the remembered scope accepts the name wherever it now sits in that scope and never looks at nearer scopes - "
+              "a moved variable plus an inner variable of the same name yields the outer one" % expr_str(prog, f, n["e"])[:60])
+    if not searched:
+        r5.ob("get_object/cached-local path returns only the exact remembered slot or a complete re-resolution", exact >= 1, f.where, f["q"], "no exact-slot return found")
+    # nearer scopes checked?
+    inner_checked = False
+    for n in walk(branch):
+        if n.get("k") in ("for", "rangefor", "while") and any(x.get("k") == "call" and x.get("op") == "==" and mentions(prog, f, x, name_param(prog, f), locs) for x in walk(n.get("body") or {})):
+            inner_checked = True
+        if n.get("k") == "call" and n.get("name") in ("any_of", "find_if", "none_of") and mentions(prog, f, n, name_param(prog, f), locs):
+            inner_checked = True
+    r5.ob("chaiscript::detail::Dispatch_Engine::get_object/cached local slot is used only after the scopes nearer than the remembered one were checked for the name", inner_checked,
+          f.where, f["q"],
+          "the remembered (scope, slot) is returned as soon as it still holds the name: a variable of the same name introduced later into a nearer scope (eval(), use()) is ignored")
+    r5.require(2, "obligations")
+
 
 def derives_from_cache(prog, f, e, locs, depth=0):
     """expression derived from the cached location value (the atomic `t_loc` parameter / its local copy `loc`)"""
